@@ -1,7 +1,7 @@
 package props
 
 // C18: codecs can be shared by concurrent goroutines.
-// Workloads (frames, segments, messages, CQL values, blobs) and their expected results are computed sequentially first;
+// Workloads (frames, raw frames, segments, messages, CQL values, blobs) and their expected results are computed sequentially first;
 // then M goroutines run them on SHARED codec instances (one frame.RawCodec per compressor, one segment.Codec per
 // compressor, message.DefaultMessageCodecs, the datacodec singletons and shared nested codecs, the compressors) from a
 // start barrier, in generated per-goroutine orders with generated yields. Built with -race.
@@ -54,7 +54,45 @@ func digestBytes(b []byte) string { return fmt.Sprintf("%d:%016x", len(b), stats
 func c18DrawItem(rt *rapid.T, i int) *c18Item {
 	label := fmt.Sprintf("item%d", i)
 	v := gen.Version(rt)
-	switch rapid.IntRange(0, 5).Draw(rt, label+"/kind") {
+	switch rapid.IntRange(0, 6).Draw(rt, label+"/kind") {
+	case 6: // raw paths on the shared frame codec: convert to raw, encode raw, decode raw, convert back; discard
+		comp := drawComp(rt, v)
+		o := gen.DefaultOpts()
+		o.MaxLongString = 3000
+		o.TypeDepth = 2
+		fc := gen.Frame(rt, v, comp != compNone, o)
+		codec := sharedFrame[comp]
+		f := fc.Frame
+		return &c18Item{name: "raw/" + comp.String(), run: func() (string, error) {
+			raw, err := codec.ConvertToRawFrame(f.DeepCopy())
+			if err != nil {
+				return "", err
+			}
+			var buf bytes.Buffer
+			if err := codec.EncodeRawFrame(raw, &buf); err != nil {
+				return "", err
+			}
+			enc := append([]byte{}, buf.Bytes()...)
+			r := bytes.NewReader(enc)
+			raw2, err := codec.DecodeRawFrame(r)
+			if err != nil {
+				return "", err
+			}
+			dec, err := codec.ConvertFromRawFrame(raw2)
+			if err != nil {
+				return "", err
+			}
+			r2 := bytes.NewReader(enc)
+			h, err := codec.DecodeHeader(r2)
+			if err != nil {
+				return "", err
+			}
+			if err := codec.DiscardBody(h, r2); err != nil {
+				return "", err
+			}
+			dec.Header.BodyLength = 0
+			return fmt.Sprintf("%016x/%d/%d", canon.Hash(dec), r.Len(), r2.Len()), nil
+		}}
 	case 0, 1: // frame encode + decode on the shared frame codec
 		comp := drawComp(rt, v)
 		o := gen.DefaultOpts()
